@@ -47,6 +47,11 @@ func mdFile(lines []string, split uint, prose, tail string) (string, []int) {
 		pos[i] = lineNo
 		put(l + "\n")
 	}
+	if tail == "\x00no-final-newline" {
+		// the closing fence is the very end of the file
+		put("```")
+		return b.String(), pos
+	}
 	put("```\n")
 	b.WriteString(tail)
 	return b.String(), pos
@@ -106,6 +111,13 @@ func init() {
 					}
 					md, _ := mdFile(lines, split, p.text, tail)
 					jobs = append(jobs, job{fmt.Sprintf("split=%b prose=%s", split, p.name), md})
+					if pi < 2 {
+						// end-of-file shapes: closing fence without final newline, blank lines after it, CRLF after it
+						for ti, t := range []string{"\x00no-final-newline", "\n\n", "\r\n", " "} {
+							md, _ := mdFile(lines, split, p.text, t)
+							jobs = append(jobs, job{fmt.Sprintf("split=%b prose=%s eof=%d", split, p.name, ti), md})
+						}
+					}
 				}
 			}
 			gen.ParallelFor(len(jobs), 0, func(i int) {
@@ -183,7 +195,7 @@ func init() {
 			r.Add("seeds", 1)
 		}
 		sw.checkCross()
-		r.Set("rule", "per seed: the grammar split into bare ``` fenced blocks at every subset of its line boundaries, surrounded by prose from a menu (none, plain, heading with grammar-like text, inline code and tabs, non-ASCII, CRLF, indented/quote; with and without trailing prose lacking a final newline): gocc x.md must give the same exit status, stdout and byte-identical packages as gocc on the concatenated block contents; plus an illegal character (?) planted at token positions: the line:column of the diagnostic must be the token's position in the markdown file; distinct = (seed, split, prose) and (seed, planted position)")
+		r.Set("rule", "per seed: the grammar split into bare ``` fenced blocks at every subset of its line boundaries, surrounded by prose from a menu (none, plain, heading with grammar-like text, inline code and tabs, non-ASCII, CRLF, indented/quote; with and without trailing prose lacking a final newline; closing fence as the very end of the file, followed by blank lines, CRLF or a space): gocc x.md must give the same exit status, stdout and byte-identical packages as gocc on the concatenated block contents; plus an illegal character (?) planted at token positions: the line:column of the diagnostic must be the token's position in the markdown file; distinct = (seed, split, prose) and (seed, planted position)")
 		return r.Finish(nil)
 	}
 }
